@@ -873,11 +873,13 @@ class GenFunctions(object):
                     variants = []
                     self.has_default_args(clone, variants)
                     variants.append(clone)
-                    # Template clones are not part of the overload
-                    # numbering below; number the variants here.
-                    for i, variant in enumerate(variants):
-                        if not variant.fmtdict.inlocal("function_suffix"):
-                            variant.fmtdict.function_suffix = "_{}".format(i)
+                    if method.template_arguments:
+                        # Function template clones are not part of the
+                        # overload numbering below (template_suffix
+                        # tells them apart); number the variants here.
+                        for i, variant in enumerate(variants):
+                            if not variant.fmtdict.inlocal("function_suffix"):
+                                variant.fmtdict.function_suffix = "_{}".format(i)
                     ordered_functions.extend(variants)
                 continue
             if method._has_default_arg:
@@ -900,9 +902,11 @@ class GenFunctions(object):
                 continue
             if function.template_arguments:
                 continue
-            if function.have_template_args:
-                # Stuff like push_back which is in a templated class, is not an overload
-                # C_name_scope is used to distigunish the functions, not function_suffix.
+            if function.have_template_args and not function._generated:
+                # Stuff like push_back which is in a templated class:
+                # the declaration itself is switched off, only its
+                # instantiated clone is wrapped (C_name_scope tells
+                # the instantiations apart, function_suffix the overloads).
                 continue
             if function.ast.is_ctor():
                 # Always create generic interface for class derived type.
